@@ -128,6 +128,9 @@ pub fn run(args: &[String]) {
                     ("litother", "", "true"),
                     ("constother", "const float[64] n = 1.5;", "n"),
                     ("constother", "const int[64] n = -3;", "n"),
+                    // (a literal of the literal's own type int[128] is recorded without a cast)
+                    ("constother", "const int[128] n = -3;", "n"),
+                    ("constother", "const int[128] n = -1;", "n"),
                     ("constcast:5", "const int[128] n = 5;", "n"),
                     ("nonconst", "int[32] n = 5;", "n"),
                     ("nonconst", "uint n;", "n"),
